@@ -15,6 +15,7 @@ Definition mc_file_write : fs -> entries -> fs := file_write.
 Definition mc_file_read : fs -> dec_result := file_read.
 Definition mc_state_file : fs -> list byte := state_file.
 Definition mc_fs_of (b : list byte) : fs := Fs b None.
+Definition mc_fs_make (b : list byte) (t : option (list byte)) : fs := Fs b t.
 Definition mc_to_map : entries -> smap := to_map.
 Definition mc_smap_to_list (m : smap) : list (str * list lock) := map_to_list m.
 Definition mc_byte_of_n : N -> option byte := Byte.of_N.
@@ -23,5 +24,5 @@ Definition mc_byte_to_n : byte -> N := Byte.to_N.
 Extraction Language OCaml.
 Extraction "codec_model.ml"
   mc_encode mc_decode_i mc_benc_decode_i mc_check_encoding
-  mc_fs_new mc_fs_of mc_file_write mc_file_read mc_state_file mc_to_map
+  mc_fs_new mc_fs_of mc_fs_make mc_file_write mc_file_read mc_state_file mc_to_map
   mc_smap_to_list mc_byte_of_n mc_byte_to_n.
